@@ -124,12 +124,20 @@ class MQScript(Entity):
         w = self.w
         q = w.queue
         w.draining = True
+        wait = 2.0
+        if w.long:
+            # deliveries still inside their latency window (and redeliveries about to fire) land first, so that
+            # the drain's own unsubscribes never hit a delivery in flight
+            wait = 4.0
+            yield 3.0
+        now = self.now.nanoseconds
         for c in w.consumers:
             q.unsubscribe(c)
         w.subscribed = {w.drain_consumer.name}
         q.subscribe(w.drain_consumer)
+        w.sub_hist.append((now, frozenset(w.subscribed)))
         for _round in range(3):
-            yield 2.0  # outstanding redelivery timers (1.5 s) fire
+            yield wait  # outstanding redelivery timers (1.5 s) fire
             evs = []
             for tag, mid in w.mids.items():
                 m = q.get_message(mid)
@@ -140,10 +148,12 @@ class MQScript(Entity):
                     if ev is not None:
                         w.note_redelivery(tag, ev, self.now.nanoseconds)
                         evs.append(ev)
-            yield 2.0, evs
+            yield wait, evs
             for _ in range(len(w.mids) + 1):
                 w.polls.append(self.now.nanoseconds)
                 yield 1.0, [Event(time=self.now, event_type="poll", target=q)]
+            if w.long:
+                yield 2.0  # the last poll's delivery lands
             if all(w.settled(tag) for tag in w.mids):
                 break
         w.final()
@@ -178,6 +188,10 @@ class MQWorld:
         self.script = MQScript(self)
         self.queue.subscribe(self.consumers[0])
         self.subscribed = {"C0"}
+        self.sub_hist = [(-1, frozenset(self.subscribed))]  # (time, subscribed set from that time on)
+        # long mode: the delivery latency exceeds a tick, so operations land inside a delivery's latency window
+        self.long = self.lat_ns >= TICK
+        self.unsub_ops = 0
         # ghost state
         self.mids = {}  # tag -> message id (returned by publish)
         self.receipts = []
@@ -305,6 +319,8 @@ class MQWorld:
             else:
                 q.unsubscribe(c)
                 self.subscribed.discard(c.name)
+                self.unsub_ops += 1
+            self.sub_hist.append((now, frozenset(self.subscribed)))
         else:
             raise AssertionError(op)
         self.lastop = (op, tag, before, rb, ret is not None)
@@ -315,6 +331,16 @@ class MQWorld:
         if self.viol is None:
             self.viol = ("MessageQueue/" + fp, desc)
             self.trace("!! " + self.viol[0] + ": " + desc)
+
+    def subs_at(self, t):
+        cur = self.sub_hist[0][1]
+        for (t0, ss) in self.sub_hist:
+            if t0 <= t:
+                cur = ss
+        return cur
+
+    def subs_changed(self, a, b):
+        return any(a < t0 <= b for (t0, _ss) in self.sub_hist)
 
     def latclass(self):
         return "latency>0" if self.lat_ns else "latency=0"
@@ -364,14 +390,18 @@ class MQWorld:
                           f"consumer {r['c']} received #{r['tag']} at {r['t']}ns, which is not a poll or redelivery "
                           f"instant plus the delivery latency ({self.lat_ns}ns); ops {self.ops}")
                 return
-            # (B) ... reaches a *subscribed* consumer
-            if r["c"] not in self.subscribed:
+            # (B) ... reaches a *subscribed* consumer.  When the subscription changed inside the latency window the
+            # statement does not say which instant counts: subscribed when selected OR on arrival is accepted.
+            t_trig = r["t"] - self.lat_ns
+            ok_subs = self.subs_at(t_trig) | self.subs_at(r["t"])
+            if r["c"] not in ok_subs:
                 self.fail(f"delivered-to-unsubscribed/{trig}",
-                          f"{r['c']} received #{r['tag']} at {r['t']}ns while not subscribed "
-                          f"(subscribed: {sorted(self.subscribed)}); ops {self.ops}")
+                          f"{r['c']} received #{r['tag']} at {r['t']}ns, not subscribed when the delivery started "
+                          f"({t_trig}ns) nor on arrival (subscribed: {sorted(ok_subs)}); ops {self.ops}")
                 return
-            # (E) nothing is delivered again after it was acknowledged
-            if r["tag"] in self.acked and r["t"] > self.acked[r["tag"]]:
+            # (E) nothing is delivered again after it was acknowledged (a delivery already inside its latency
+            # window when the ack was issued is not counted as 'delivered again')
+            if r["tag"] in self.acked and t_trig > self.acked[r["tag"]] - (0 if self.long else self.lat_ns):
                 self.fail(f"delivered-after-ack/{trig}",
                           f"#{r['tag']} acknowledged at {self.acked[r['tag']]}ns was delivered again at {r['t']}ns "
                           f"to {r['c']}; ops {self.ops}")
@@ -388,7 +418,10 @@ class MQWorld:
                 self.flags.add("redelivered")
         # (B) every delivery the queue performed reached a consumer -------------------
         performed = st.messages_delivered + st.messages_redelivered
-        if len(self.receipts) < performed:
+        # long mode: only at the quiescent end of the drain, and only if no consumer unsubscribed during the
+        # sequence (whether a delivery in its window must still reach a consumer that left is not settled)
+        b1 = (not self.long) or (i is None and self.unsub_ops == 0)
+        if b1 and len(self.receipts) < performed:
             trig = "poll" if lop == "poll" or self.draining else "redelivery"
             self.fail(f"delivery-not-received/{trig}/{self.latclass()}",
                       f"the queue performed {performed} deliveries (stats) and counts {q.in_flight_count} in flight, "
@@ -401,17 +434,19 @@ class MQWorld:
                     continue
                 rd["checked"] = True
                 tag = rd["tag"]
-                if rd["subs_at_fire"] is None:
-                    rd["subs_at_fire"] = set(self.subscribed)  # subscriptions only change at ticks
+                rd["subs_at_fire"] = set(self.subs_at(rd["fire"]))
+                if self.subs_changed(rd["fire"], rd["fire"] + self.lat_ns):
+                    continue  # subscription changed inside the latency window: be silent
                 got = any(r["tag"] == tag and rd["at"] < r["t"] <= rd["fire"] + self.lat_ns for r in self.receipts)
-                acked_before = tag in self.acked and self.acked[tag] <= rd["fire"]
+                acked_before = tag in self.acked and self.acked[tag] <= rd["fire"] + self.lat_ns
                 if not got and not acked_before and not self.in_dlq(tag) and rd["subs_at_fire"]:
                     self.fail("redelivery-not-received/timeout",
                               f"redelivery of #{tag} requested at {rd['at']}ns for {rd['fire']}ns never reached a "
                               f"consumer although {sorted(rd['subs_at_fire'])} subscribed; ops {self.ops}")
                     return
         # (D) the redelivery limit moves a message to the DLQ -------------------------
-        if self.lastop and self.lastop[0] in ("rejq", "tmo") and self.lastop[2] == "delivered":
+        # (not in long mode: receipts lag the queue's own delivery count while a delivery is in its window)
+        if not self.long and self.lastop and self.lastop[0] in ("rejq", "tmo") and self.lastop[2] == "delivered":
             op, tag, _before, rb, ret = self.lastop
             ignored = op == "tmo" and not ret and self.pub_state(tag) == "delivered"
             if not ignored:
@@ -511,7 +546,7 @@ class TopicScript(Entity):
             op = opts[w.chooser.choose(len(opts), tuple(opts))]
         if op == "end":
             # one more boundary two ticks later: everything in flight has landed
-            return [Event(time=Instant((i + 2) * TICK), event_type="final", target=w.final_ent)]
+            return [Event(time=Instant((i + w.settle) * TICK), event_type="final", target=w.final_ent)]
         out = w.apply(op, self, i)
         nxt = Event(time=Instant((i + 1) * TICK), event_type="tick", target=self, context={"metadata": {"i": i + 1}})
         return out + [nxt]
@@ -537,6 +572,10 @@ class TopicWorld:
         self.max_len = max_len
         self.verbose = verbose
         self.lat_ns = int(round(cfg["lat"] * TICK))
+        # the fan-out of one publish takes (active subscribers) x latency; with 0.75 s it spans one or two
+        # ticks, so later operations land strictly inside the window (n x 0.75 s is never a whole tick for n <= 3)
+        self.settle = 2 + (cfg["subs"] * self.lat_ns) // TICK
+        self.unsub_times = {}  # subscriber -> times of its unsubscribe calls
         self.topic = Topic("t", delivery_latency=cfg["lat"])
         self.subs = [Subscriber(f"S{k}", self) for k in range(cfg["subs"])]
         self.script = TopicScript(self)
@@ -609,7 +648,10 @@ class TopicWorld:
             else:
                 t.unsubscribe(s)
                 self.active.discard(s.name)
+                self.unsub_times.setdefault(s.name, []).append(now)
                 self.flags.add("unsubscribe")
+            if any(pt + len(act) * self.lat_ns > now for (_tg, pt, act, _api) in self.published if _api == "publish"):
+                self.flags.add("change-during-fanout")
         return out
 
     def fail(self, fp, desc):
@@ -618,7 +660,8 @@ class TopicWorld:
             self.trace("!! " + self.viol[0] + ": " + desc)
 
     def observe(self, i):
-        """Boundary i: every publish issued at a tick < i has been fanned out (<= 3 x 0.25 s)."""
+        """Boundary i: every publish whose fan-out (active-at-publish x latency) ended before tick i is checked
+        for completeness; deliveries to a subscriber that was not active at publish time are checked at once."""
         if self.viol is not None:
             return
         self.transitions += len(self.receipts) - self.checked
@@ -626,13 +669,16 @@ class TopicWorld:
         limit = None if i is None else i * TICK
         latc = "latency>0" if self.lat_ns else "latency=0"
         for (tag, t, act, api) in self.published:
-            if limit is not None and t >= limit:
-                continue
+            fan_end = t + (len(act) * self.lat_ns if api == "publish" else 0)
             got = [r for r in self.receipts if r[2] == tag]
+            done = limit is None or fan_end < limit
             for s in sorted(act):
                 n = sum(1 for r in got if r[1] == s)
-                if n == 0:
-                    self.fail(f"not-received/{api}/{latc}",
+                if n == 0 and done:
+                    shape = latc
+                    if any(t <= u <= fan_end for u in self.unsub_times.get(s, ())):
+                        shape = "unsubscribed-during-fanout"
+                    self.fail(f"not-received/{api}/{shape}",
                               f"message #{tag} published at {t}ns never reached {s}, active at publish time "
                               f"(stats say delivered={self.topic.stats.messages_delivered}); ops {self.ops}")
                     return
